@@ -117,6 +117,7 @@ func runC11(c *Ctx) {
 	p := c.P
 	shellQuoteRule(c, "R9")
 	everyValueRecorded(c, "R2")
+	extensionCommandsOnlyFromTrustedConfig(c, "R5")
 	rg := p.Fn("config", "readGitConfig")
 	if rg == nil {
 		c.Missing("R2", "config.readGitConfig", "function not found")
